@@ -227,6 +227,29 @@ static void op_aliases(const V &a, V &r) {
     r.push_back(bad); r.push_back(first); r.push_back(id);
 }
 
+// arrays m : every _array constructor / destructor pair once with m elements (run under ASan: no interposition needed)
+static void op_arrays(const V &a, V &r) {
+    int m = a[0]; const int N = 1024;
+    LweParams *lp = new_LweParams(7, 0., 0.25); TLweParams *tp = new_TLweParams(N, 2, 0., 0.25); TGswParams *gp = new_TGswParams(2, 8, tp);
+    { LweSample *x = new_LweSample_array(m, lp); for (int i = 0; i < m; i++) x[i].a[6] = i; delete_LweSample_array(m, x); }
+    { LweKey *x = new_LweKey_array(m, lp); for (int i = 0; i < m; i++) x[i].key[6] = i; delete_LweKey_array(m, x); }
+    { TorusPolynomial *x = new_TorusPolynomial_array(m, N); for (int i = 0; i < m; i++) x[i].coefsT[N - 1] = i; delete_TorusPolynomial_array(m, x); }
+    { IntPolynomial *x = new_IntPolynomial_array(m, N); for (int i = 0; i < m; i++) x[i].coefs[N - 1] = i; delete_IntPolynomial_array(m, x); }
+    { LagrangeHalfCPolynomial *x = new_LagrangeHalfCPolynomial_array(m, N); for (int i = 0; i < m; i++) LagrangeHalfCPolynomialClear(x + i); delete_LagrangeHalfCPolynomial_array(m, x); }
+    { TLweSample *x = new_TLweSample_array(m, tp); for (int i = 0; i < m; i++) x[i].b->coefsT[N - 1] = i; delete_TLweSample_array(m, x); }
+    { TLweSampleFFT *x = new_TLweSampleFFT_array(m, tp); for (int i = 0; i < m; i++) LagrangeHalfCPolynomialClear(x[i].a + 2); delete_TLweSampleFFT_array(m, x); }
+    { TLweKey *x = new_TLweKey_array(m, tp); for (int i = 0; i < m; i++) x[i].key[1].coefs[N - 1] = i; delete_TLweKey_array(m, x); }
+    { TGswSample *x = new_TGswSample_array(m, gp); for (int i = 0; i < m; i++) x[i].bloc_sample[2][1].b->coefsT[N - 1] = i; delete_TGswSample_array(m, x); }
+    { TGswSampleFFT *x = new_TGswSampleFFT_array(m, gp); for (int i = 0; i < m; i++) LagrangeHalfCPolynomialClear(x[i].sample[2][1].a + 2); delete_TGswSampleFFT_array(m, x); }
+    { TGswKey *x = new_TGswKey_array(m, gp); for (int i = 0; i < m; i++) x[i].key[1].coefs[N - 1] = i; delete_TGswKey_array(m, x); }
+    { LweKeySwitchKey *x = new_LweKeySwitchKey_array(m, 3, 2, 2, lp); for (int i = 0; i < m; i++) x[i].ks[2][1][3].a[6] = i; delete_LweKeySwitchKey_array(m, x); }
+    { LweBootstrappingKey *x = new_LweBootstrappingKey_array(m, 2, 2, lp, gp); for (int i = 0; i < m; i++) x[i].bk[6].all_sample[5].b->coefsT[N - 1] = i; delete_LweBootstrappingKey_array(m, x); }
+    { LweParams *x = new_LweParams_array(m, 5, 0., 0.25); delete_LweParams_array(m, x); }
+    { TLweParams *x = new_TLweParams_array(m, N, 2, 0., 0.25); delete_TLweParams_array(m, x); }
+    { TGswParams *x = new_TGswParams_array(m, 3, 4, tp); for (int i = 0; i < m; i++) r.push_back(x[i].h[2]); delete_TGswParams_array(m, x); }
+    delete_TGswParams(gp); delete_TLweParams(tp); delete_LweParams(lp);
+}
+
 // karamem <size> <trials> <seed> : Karatsuba_aux on caller-provided arrays of exactly the size the model predicts, each followed by
 //   guard words; prints: highest written byte offset of buf + 1 (max over trials), 1 if every guard survived, 1 if the result
 //   equals the schoolbook product.  Under ASan the arrays are exact-size heap blocks (an access past them aborts).
@@ -271,6 +294,7 @@ int main() {
         else if (op == "threads") op_threads(a, r);
         else if (op == "karamem") op_karamem(a, r);
         else if (op == "aliases") op_aliases(a, r);
+        else if (op == "arrays") op_arrays(a, r);
 #ifdef VERIF_LEDGER
         else if (op == "ledger") op_ledger(a, r);
         else if (op == "lifeleak") op_lifeleak(a, r);
